@@ -142,6 +142,107 @@ def _step_multiple(node, epoch_name, mod):
     return None
 
 
+def series_feed_queries(ctx, chk, rule):
+    """The SELECTs of classify_interstorms / match_all_storms that feed the positional array code: rows of ONE data interval
+    (restricted by the function's data_interval argument), the three series tied to the same instant by equalities, in
+    time order.  Shared by C03.O6 and C04.O2."""
+    n_feed = 0
+    for fq in ("classify.classify_interstorms", "classify.match_all_storms"):
+        f = ctx.func(fq)
+        for s in ctx.sites_in(f):
+            if s.stmt is None or s.stmt.kind != "select":
+                continue
+            sel = s.stmt
+            tabs = {x.table for x in sel.sources}
+            sub_preds = []
+            cte_names = set()
+            for _n, cte in getattr(sel, "ctes", []) or []:
+                tabs |= {x.table for x in cte.sources}
+                cte_names.add(_n)
+                sub_preds += conjuncts(cte.where)          # a restriction inside the CTE counts as a restriction of the query
+            for pr in conjuncts(sel.where):
+                # epoch IN (SELECT epoch FROM grid_time WHERE data_interval = ?): grid_time takes part through the sub-query
+                if pr[0] in ("in", "inlist") and len(pr[2]) == 1 and pr[2][0][0] == "subq":
+                    q_ = pr[2][0][1]
+                    tabs |= {x.table for x in q_.sources}
+                    sub_preds += conjuncts(q_.where)
+            if not {"grid_time", "water_level", "rainfall_intensity"} <= tabs:
+                continue
+            n_feed += 1
+            preds = []
+            for src in sel.sources:
+                preds += conjuncts(src.on)
+            preds += conjuncts(sel.where) + sub_preds
+            restricted = False
+            for pr in preds:
+                if pr[0] == "bin" and pr[1] == "=" and {pr[2][0], pr[3][0]} == {"col", "param"}:
+                    col = pr[2] if pr[2][0] == "col" else pr[3]
+                    par = pr[3] if pr[2][0] == "col" else pr[2]
+                    if col[2] == "data_interval":
+                        # bound parameter is the function's data_interval argument
+                        a = s.param(par[1], Flow.of(f))
+                        if a is not None:
+                            restricted = isinstance(a, ast.Name) and a.id in f.params
+            # equivalence classes of (table, column) under the join equalities (ON / WHERE / USING)
+            alias = {x.alias: x.table for x in sel.sources if x.table}
+            cols_of = {t: set(ctx.schema.columns_of(t)) for t in alias.values()} if hasattr(ctx.schema, "columns_of") else {}
+
+            def owner(q, c):
+                if q:
+                    return alias.get(q, q)
+                own = [t for t, cs in cols_of.items() if c in cs]
+                if len(own) > 1 and len({find((t, c)) for t in own}) == 1:
+                    return own[0]          # merged by USING: one column
+                return own[0] if len(own) == 1 else None
+
+            parent_ = {}
+
+            def find(x):
+                while parent_.setdefault(x, x) != x:
+                    x = parent_[x]
+                return x
+
+            def union(a_, b_):
+                parent_[find(a_)] = find(b_)
+
+            seen_tabs = []
+            for src in sel.sources:
+                if src.using and src.table:
+                    for c in src.using:
+                        for t in seen_tabs:
+                            if not cols_of or c in cols_of.get(t, ()):
+                                union((t, c), (src.table, c))
+                if src.table:
+                    seen_tabs.append(src.table)
+            for pr in preds:
+                if pr[0] == "bin" and pr[1] == "=" and pr[2][0] == "col" and pr[3][0] == "col":
+                    ta, tb = owner(pr[2][1], pr[2][2]), owner(pr[3][1], pr[3][2])
+                    if ta and tb:
+                        union((ta, pr[2][2]), (tb, pr[3][2]))
+            # IN (SELECT epoch FROM grid_time WHERE data_interval = ?) restricts, and ties the instant to grid_time
+            for pr in preds:
+                if pr[0] in ("in", "inlist") and pr[1][0] == "col" and len(pr[2]) == 1 and pr[2][0][0] == "subq":
+                    q_ = pr[2][0][1]
+                    if len(q_.columns) == 1 and q_.columns[0][0][0] == "col" and len(q_.sources) == 1 and q_.sources[0].table == "grid_time":
+                        ta = owner(pr[1][1], pr[1][2])
+                        if ta:
+                            union((ta, pr[1][2]), ("grid_time", q_.columns[0][0][2]))
+            joined = find(("rainfall_intensity", "from_epoch")) == find(("water_level", "epoch")) == find(("grid_time", "epoch"))
+            ordered = bool(sel.order_by) and sel.order_by[0][0][0] == "col" and sel.order_by[0][0][2].endswith("epoch") and sel.order_by[0][1] == "ASC"
+            ranged = [pr for pr in preds if pr[0] == "bin" and pr[1] in (">=", "<=", ">", "<") and pr[2][0] == "col" and pr[3][0] == "col"
+                      and ({alias.get(pr[2][1], pr[2][1]), alias.get(pr[3][1], pr[3][1])} & cte_names)]
+            if not joined and ranged:
+                chk.indeterminate(rule, where_of(f, s.call), "the rows of the data interval are selected by a range against %s (%s), not by equality of the instant with the labelled grid times: whether the bounds keep exactly the interval's rows is not decided"
+                                  % (sorted(cte_names), "; ".join(expr_str(pr)[:50] for pr in ranged[:2])))
+                continue
+            chk.ob(rule, restricted and joined and ordered, where_of(f, s.call),
+                   "series query: restricted to the data interval argument: %s; three series joined on the same instant: %s; ordered by time ascending: %s" % (restricted, joined, ordered),
+                   "one gap-free stretch, aligned, in time order", key="%s|series-query" % f.qualname,
+                   why="positional array code assumes consecutive rows are consecutive steps of one stretch")
+    chk.floor("array-feeding series queries in the classification call tree", n_feed, 2)
+    return n_feed
+
+
 def run(ctx, chk, tier="quick"):
     chk.explanation = (
         "Comparison normal forms of the two run-defining predicates and of every comparison against a "
@@ -153,6 +254,8 @@ def run(ctx, chk, tier="quick"):
     )
     chk.assumptions = ["numpy cumsum labelling in get_true_interval_masks yields maximal interior runs (leading run: C01.O3)",
                        "a rain mask has one element per time step, a jump mask one per increment (np.diff)"]
+    from ..sqlrules import lossy_functions
+    lossy_functions(ctx, chk, "C03.O1", ("classify",), "classify", "thresholds are compared with the stored intensities and levels, not with rounded ones")
     roles = threshold_roles(ctx)
     mod = ctx.repo.module("classify")
     # ------------------------------------------------------------ O1
@@ -443,89 +546,7 @@ def run(ctx, chk, tier="quick"):
                "per-interval loop passes its own label: %s; labels are the distinct non-NULL data intervals: %s" % (call_arg_ok, src_ok),
                "each gap-free stretch is classified on its own", key="classify_intervals|per-interval-loop",
                why="a run computed over concatenated stretches would cross a gap")
-    n_feed = 0
-    for fq in ("classify.classify_interstorms", "classify.match_all_storms"):
-        f = ctx.func(fq)
-        for s in ctx.sites_in(f):
-            if s.stmt is None or s.stmt.kind != "select":
-                continue
-            sel = s.stmt
-            tabs = {x.table for x in sel.sources}
-            sub_preds = []
-            for pr in conjuncts(sel.where):
-                # epoch IN (SELECT epoch FROM grid_time WHERE data_interval = ?): grid_time takes part through the sub-query
-                if pr[0] in ("in", "inlist") and len(pr[2]) == 1 and pr[2][0][0] == "subq":
-                    q_ = pr[2][0][1]
-                    tabs |= {x.table for x in q_.sources}
-                    sub_preds += conjuncts(q_.where)
-            if not {"grid_time", "water_level", "rainfall_intensity"} <= tabs:
-                continue
-            n_feed += 1
-            preds = []
-            for src in sel.sources:
-                preds += conjuncts(src.on)
-            preds += conjuncts(sel.where) + sub_preds
-            restricted = False
-            for pr in preds:
-                if pr[0] == "bin" and pr[1] == "=" and {pr[2][0], pr[3][0]} == {"col", "param"}:
-                    col = pr[2] if pr[2][0] == "col" else pr[3]
-                    par = pr[3] if pr[2][0] == "col" else pr[2]
-                    if col[2] == "data_interval":
-                        # bound parameter is the function's data_interval argument
-                        a = s.param(par[1], Flow.of(f))
-                        if a is not None:
-                            restricted = isinstance(a, ast.Name) and a.id in f.params
-            # equivalence classes of (table, column) under the join equalities (ON / WHERE / USING)
-            alias = {x.alias: x.table for x in sel.sources if x.table}
-            cols_of = {t: set(ctx.schema.columns_of(t)) for t in alias.values()} if hasattr(ctx.schema, "columns_of") else {}
-
-            def owner(q, c):
-                if q:
-                    return alias.get(q, q)
-                own = [t for t, cs in cols_of.items() if c in cs]
-                if len(own) > 1 and len({find((t, c)) for t in own}) == 1:
-                    return own[0]          # merged by USING: one column
-                return own[0] if len(own) == 1 else None
-
-            parent_ = {}
-
-            def find(x):
-                while parent_.setdefault(x, x) != x:
-                    x = parent_[x]
-                return x
-
-            def union(a_, b_):
-                parent_[find(a_)] = find(b_)
-
-            seen_tabs = []
-            for src in sel.sources:
-                if src.using and src.table:
-                    for c in src.using:
-                        for t in seen_tabs:
-                            if not cols_of or c in cols_of.get(t, ()):
-                                union((t, c), (src.table, c))
-                if src.table:
-                    seen_tabs.append(src.table)
-            for pr in preds:
-                if pr[0] == "bin" and pr[1] == "=" and pr[2][0] == "col" and pr[3][0] == "col":
-                    ta, tb = owner(pr[2][1], pr[2][2]), owner(pr[3][1], pr[3][2])
-                    if ta and tb:
-                        union((ta, pr[2][2]), (tb, pr[3][2]))
-            # IN (SELECT epoch FROM grid_time WHERE data_interval = ?) restricts, and ties the instant to grid_time
-            for pr in preds:
-                if pr[0] in ("in", "inlist") and pr[1][0] == "col" and len(pr[2]) == 1 and pr[2][0][0] == "subq":
-                    q_ = pr[2][0][1]
-                    if len(q_.columns) == 1 and q_.columns[0][0][0] == "col" and len(q_.sources) == 1 and q_.sources[0].table == "grid_time":
-                        ta = owner(pr[1][1], pr[1][2])
-                        if ta:
-                            union((ta, pr[1][2]), ("grid_time", q_.columns[0][0][2]))
-            joined = find(("rainfall_intensity", "from_epoch")) == find(("water_level", "epoch")) == find(("grid_time", "epoch"))
-            ordered = bool(sel.order_by) and sel.order_by[0][0][0] == "col" and sel.order_by[0][0][2].endswith("epoch") and sel.order_by[0][1] == "ASC"
-            chk.ob("C03.O6", restricted and joined and ordered, where_of(f, s.call),
-                   "series query: restricted to the data interval argument: %s; three series joined on the same instant: %s; ordered by time ascending: %s" % (restricted, joined, ordered),
-                   "one gap-free stretch, aligned, in time order", key="%s|series-query" % f.qualname,
-                   why="positional array code assumes consecutive rows are consecutive steps of one stretch")
-    chk.floor("array-feeding series queries in the classification call tree", n_feed, 2)
+    series_feed_queries(ctx, chk, "C03.O6")
 
 
 def _zero():
